@@ -947,6 +947,13 @@ class Interp(StmtMixin):
             b = norm(hi, n)
             ln = z3.If(b - a > 0, b - a, 0)
             ext = z3.SubString(s.t, a, ln) if base.ty == "str" else z3.SubSeq(s.t, a, ln)
+            if base.ty != "str" and not self.spec_mode:
+                # a named slice with its index-level meaning stated explicitly (quantified facts about positions instantiate on it)
+                sl = fresh_const("slice", s.t.sort())
+                k = bound_var("k", I)
+                st = st.assume(sl == ext).assume(z3.Length(sl) == ln)
+                st = st.assume(z3.ForAll([k], z3.Implies(z3.And(k >= 0, k < ln), sl[k] == s.t[a + k]), patterns=[sl[k]]))
+                ext = sl
             yield st, Val(ext, s.ty)
             return
         raise Unsupported(f"slice of {base.ty}")
